@@ -284,4 +284,9 @@ def run(rep, db, tier, seed):
         c14_read.run(rep, db, tier)
     except Exception as u:
         rep.add(Obligation('ReadStream::read_exact', 'inconclusive', f'{type(u).__name__}: {u}'[:600]))
+    try:
+        from props import c14_streamops
+        c14_streamops.run(rep, db, tier)
+    except Exception as u:
+        rep.add(Obligation('sub-stream operations (recv_open, write_all, send_close, send_open)', 'inconclusive', f'{type(u).__name__}: {u}'[:600]))
     rep.extra['explanation'] = 'sequential kernel of the multiplexer on the real MIR; task-interplay guarantees of C14 are NOT decided'
